@@ -257,6 +257,22 @@ pub fn run(ctx: &mut Ctx) {
         fam.push(("near".into(), e.add_assertion("near", case)));
         fam.push(("wrapped".into(), e.wrap_envelope()));
         fam.push(("elided".into(), e.elide()));
+        // near-miss digests: placeholders whose digest is a rearrangement / a one-bit neighbour / a half-equal twin
+        // of this envelope's digest, bare and as the object of an assertion next to the true placeholder's node -
+        // a comparison that looks at part of a digest (a prefix, a 64-bit key, a hash of the words) calls them equal
+        {
+            let d = *bc_components::DigestProvider::digest(&e).data();
+            let rel = crate::adv::related_digests(&d);
+            fam.push(("holder-true".into(), Envelope::new("holder").add_assertion("held", e.elide())));
+            for _ in 0..2 {
+                let (label, rd) = &rel[rng.below(rel.len())];
+                ctx.count("near_miss_digest_members");
+                ctx.count(&format!("near_miss_{}", label));
+                let ph = gen::elided_with_digest(rd);
+                fam.push((format!("holder-{}", label), Envelope::new("holder").add_assertion("held", ph.clone())));
+                fam.push((format!("bare-{}", label), ph));
+            }
+        }
 
         let trees: Vec<T> = fam.iter().map(|(_, x)| tree_of(x)).collect();
         // all ordered pairs
